@@ -114,3 +114,19 @@ Fixpoint hw_entries (evs : list hw_event) : list entry :=
   | HMarker c :: r => MK (oddN c) (c mod HALF) :: hw_entries r
   | HScalers _ :: r => hw_entries r
   end.
+
+(* the edges the CSV is about (those after the first marker), with what the generator knows about each:
+   k = number of markers written before it (its FIFO window is [k*HALF, (k+1)*HALF)), the absolute tick T,
+   channel, edge, and whether a later marker closes the window *)
+Record hw_edge := HE { he_k : N; he_T : N; he_ch : N; he_tr : bool; he_later : bool }.
+Fixpoint hw_edges_from (k : N) (evs : list hw_event) : list hw_edge :=
+  match evs with
+  | [] => []
+  | HEdge T ch tr :: r =>
+      if k =? 0 then hw_edges_from k r else HE k T ch tr (has_marker r) :: hw_edges_from k r
+  | HMarker _ :: r => hw_edges_from (k + 1) r
+  | HScalers _ :: r => hw_edges_from k r
+  end.
+Definition hw_edges (evs : list hw_event) : list hw_edge := hw_edges_from 0 evs.
+(* the edge lies between the two markers it is enclosed by in the FIFO (not displaced to the wrong side) *)
+Definition in_window (e : hw_edge) : Prop := he_k e * HALF <= he_T e /\ he_T e < (he_k e + 1) * HALF.
